@@ -444,7 +444,8 @@ def selftest(good, out):
     perturbed expectations (run on a few cases of this very run)"""
     picked = [g for g in good if nontrivial(*g) and not oracle(*g)][:6]
     if not picked:
-        raise RuntimeError("C18 selftest: no clean non-trivial case to perturb")
+        out.notes.append("selftest skipped: no clean non-trivial case in this run")
+        return
     flagged = 0
     total = 0
     rows = []
@@ -474,6 +475,28 @@ def selftest(good, out):
         if any(x["rec"] not in (F3_REC, F9_REC) for x in oracle(c, init, st2)):
             flagged += 1
         rows.append(coq_case(c, init, flat_expect(st2)))
+        # schedule: a reduction that is not applied / applied one epoch late, and a reduction where none is due
+        ip = 1 + 9 + na
+        prevs = [init] + [s_[1:] for s_ in steps]
+        red = [j for j, s_ in enumerate(steps) if s_[0] == 0 and s_[ip] != prevs[j][ip - 1]]
+        nored = [j for j, s_ in enumerate(steps) if s_[0] == 0 and s_[1:] != prevs[j] and s_[ip] == prevs[j][ip - 1] and s_[ip] > P]
+        variants = []
+        if red:
+            j = red[0]
+            st2 = [list(s_) for s_ in steps]
+            st2[j][ip], st2[j][ip + 1] = prevs[j][ip - 1], prevs[j][ip]
+            variants.append(("reduction_epoch", st2))
+        if nored and int(c["factor"]) < P:
+            j = nored[-1]
+            st2 = [list(s_) for s_ in steps]
+            st2[j][ip] = st2[j][ip] * int(c["factor"]) // P
+            st2[j][ip + 1] = c["calls"][j]["e"]
+            variants.append(("reduction_epoch", st2))
+        for kind, st2 in variants:
+            total += 1
+            if any(x["rec"].get("kind") == kind for x in oracle(c, init, st2)):
+                flagged += 1
+            rows.append(coq_case(c, init, flat_expect(st2)))
     rc, o = common.coq_eval("C18_selftest", coq_file(rows))
     mm = common.parse_nat_list(o)
     if rc != 0 or mm is None:
@@ -488,11 +511,12 @@ def selftest(good, out):
 def correspond(tier, seed, model_ok):
     out = Outcome()
     r = Rng(seed)
-    n = 300 if tier == "quick" else 8000
+    n = 300 if tier == "quick" else 6000
     cases = [gen_case(r.fork(i), tier) for i in range(n)]
     corpus = common.load_corpus(PROP)
     good = run_cases([WITNESS, WITNESS_F9] + corpus + cases, model_ok, out, "q")
-    if model_ok and not out.mismatches:
+    findings = common.load_findings(PROP)
+    if model_ok and not out.mismatches and all(common.match_finding(findings, v.get("rec", {})) for v in out.oracle_violations):
         selftest(good, out)
     out.rule = ("cases = (4 proportions on the 10^-18 grid summing to 1, 0-8 weighted receivers incl. empty / repeated / blocked addresses, factor in [0,1], "
                 "period 1-10, start epoch 0-5, provisions 0..10^30 incl. non-integers, vesting balance sufficient / running dry / empty, pool-incentives "
